@@ -2028,7 +2028,9 @@ class Cluster(object):
                     return
 
             host.set_down()
-            if (not was_up and not expect_host_to_be_down) or host.is_currently_reconnecting():
+            # nothing more to do for a host already known to be down; a host in the unknown
+            # state (is_up is None) goes through the full sequence so that it gets a reconnector
+            if (was_up is False and not expect_host_to_be_down) or host.is_currently_reconnecting():
                 return
 
         log.warning("Host %s has been marked down", host)
